@@ -1,4 +1,5 @@
 import json
+import gfapy
 from copy import deepcopy
 
 class Cloning:
@@ -23,6 +24,10 @@ class Cloning:
         data_cpy[k] = self.field_to_s(k)
       elif self._field_datatype(k) == "J":
         data_cpy[k] = json.loads(json.dumps(v))
+      elif isinstance(v, gfapy.OrientedLine):
+        data_cpy[k] = gfapy.OrientedLine(v.line, v.orient)
+      elif isinstance(v, gfapy.FieldArray):
+        data_cpy[k] = gfapy.FieldArray(v.datatype, deepcopy(list(v)))
       elif isinstance(v, list) or isinstance(v, str):
         data_cpy[k] = deepcopy(v)
       else:
